@@ -124,9 +124,9 @@ static void exec(const Plan* p) {
     Samples s; int const alg = (int)plan_get(p, "alg", 0), threads = (int)plan_get(p, "threads", 0); size_t const cap = (size_t)plan_get(p, "cap", 1000); long const af = (long)plan_get(p, "alloc_fail", 0), af2 = (long)plan_get(p, "alloc_fail2", 0);
     uint8_t* dst; uint8_t* dst2; size_t r, r2; const char* e;
     make_samples(&s, p);
-    dst = (uint8_t*)sim_buf_new(cap ? cap : 1);
+    dst = (uint8_t*)sim_buf_new(cap ? cap : 1); memset(dst, 0x00, cap ? cap : 1);
     /* ---- the call under test: scheduler decides worker interleavings, allocator seam may fail inside ---- */
-    sim_wrap_reset(); sim_wrap_arm(af, af ? af2 : 0);
+    sim_wrap_reset(); sim_wrap_arm(af, af ? af2 : 0); sim_wrap_fill(0xCD);
     r = run_trainer(p, alg, dst, cap, &s, threads);
     sim_wrap_disarm();
     sim_event("alg=%s nb=%u total=%zu cap=%zu -> %s %zu (alloc calls %ld failed %ld)", g_alg[alg], s.nb, s.total, cap, ZDICT_isError(r) ? ZDICT_getErrorName(r) : "ok", ZDICT_isError(r) ? (size_t)0 : r, sim_wrap_calls(), sim_wrap_failed());
@@ -143,8 +143,11 @@ static void exec(const Plan* p) {
     } else { sim_probe("c18.error_result"); if (s.nb >= 5 || sim_wrap_failed()) sim_mark_nontrivial(); }
     /* ---- determinism: same inputs, nbThreads <= 1, no fault: identical result ---- */
     if (threads <= 1 && !sim_wrap_failed()) {
-        dst2 = (uint8_t*)sim_buf_new(cap ? cap : 1);
+        /* the second run sees other bytes in every place the result must not depend on: the output buffer beforehand and fresh heap blocks */
+        dst2 = (uint8_t*)sim_buf_new(cap ? cap : 1); memset(dst2, 0xA5, cap ? cap : 1);
+        sim_wrap_arm(0, 0); sim_wrap_fill(0x5A);
         r2 = run_trainer(p, alg, dst2, cap, &s, threads);
+        sim_wrap_disarm();
         if (ZDICT_isError(r) != ZDICT_isError(r2) || (!ZDICT_isError(r) && (r != r2 || (r && memcmp(dst, dst2, r)))))
             sim_violation("nondeterministic", "%s with nbThreads=%d: first run %s/%zu, second run %s/%zu%s", g_alg[alg], threads, ZDICT_isError(r) ? ZDICT_getErrorName(r) : "ok", r, ZDICT_isError(r2) ? ZDICT_getErrorName(r2) : "ok", r2, (!ZDICT_isError(r) && r == r2) ? " (bytes differ)" : "");
         if ((e = sim_buf_check(dst2)) != NULL) sim_violation("dst_overrun", "%s: %s", g_alg[alg], e);
